@@ -340,6 +340,26 @@ def run_property(pid, tier, seed, root):
             replay_records.append(rec)
         n_viol = len(viol_lines)
 
+    # ---- stand-in when the deductive route is undecided (unsupported construct, lost anchor, timeout):
+    # search the real code for a concrete failing input. A hit is a violation (it replays on the real
+    # code); a miss leaves the run undecided (exit 2). Never counted as proved.
+    standin = None
+    if undecided and not viol_lines and replay_mod is not None:
+        try:
+            standin = replay_mod.standin_search(pid, root, tier)
+        except Exception as e:
+            standin = {'error': repr(e)}
+        if standin and standin.get('counterexample'):
+            oid = f'{pid}/undecided-by-verifier/native-search-stand-in/{standin["counterexample"]["oracle"]}'
+            rp = os.path.join(replay_dir, f'{pid}_{hashlib.sha1(oid.encode()).hexdigest()[:10]}.json')
+            rec = {'property': pid, 'obligation': oid, 'decided_by': 'bounded stand-in: native search on the real code (NOT a proof); '
+                   'the deductive route was undecided for the reasons listed', 'undecided': undecided, 'tier': tier,
+                   'rerun': f'./check --replay {rp}'}
+            rec.update(standin)
+            json.dump(rec, open(rp, 'w'), indent=1)
+            viol_lines.append((f'VIOLATION property={pid} replay={rp}', oid))
+            n_viol = len(viol_lines)
+
     wall = time.time() - t0
     assumptions = list(cfg.get('assumptions', [])) + list(config.GLOBAL_ASSUMPTIONS)
     ev = {
@@ -360,7 +380,7 @@ def run_property(pid, tier, seed, root):
             'not_covered': cfg.get('not_covered', []),
             'samples': samples,
             'failed_obligations': [oid for _, oid in viol_lines],
-            'undecided': undecided, 'unsound': unsound,
+            'undecided': undecided, 'unsound': unsound, 'standin_search': standin,
             'explanation': ('obligations = proof obligations (AIR assert terms) generated by Verus for the functions of each unit '
                             'assembled from /repo on this run, plus the property checks of complete (loop-free, full-domain) Kani '
                             'harnesses on the real crates; bounded Kani harnesses are listed under bounded_checks and are not counted'),
